@@ -320,7 +320,7 @@ impl Prop for C08P {
     }
     fn plan(&self, tier: Tier, _seed: u64) -> Plan {
         let mut p = Plan::new(
-            vec![sec("pinned", 160), sec("well-scoped-programs", tier.pick(40_000, 800_000)), sec("perturbations", tier.pick(15_000, 300_000))],
+            vec![sec("pinned", 160), sec("well-scoped-programs", tier.pick(80_000, 800_000)), sec("perturbations", tier.pick(30_000, 300_000))],
             "random well-scoped programs over the full syntax (nesting depth up to 12, sibling scopes re-using names, groups of 1-3 definitions nested in definitions, annotations and bodies with forward references, keyword look-alike and non-ASCII names, `_` binders and `_` expressions, empty and non-empty initial context), printed with varied parenthesisation and layout; then every occurrence renamed to an unbound name / every binder renamed to another name of the program, one at a time (up to 12 per program); non-trivial = distinct program with at least one resolved occurrence, or a rejected perturbation",
         );
         p.assumptions = vec![
